@@ -382,7 +382,8 @@ def serialise(r, top, variants=True, doctype=False, flags=None):
             out.append("<?" + t[1] + (" " + t[2] if t[2] else "") + "?>")
     if doctype:
         root = [t for t in top if t[0] == "e"][0][1]
-        out.append('<!DOCTYPE %s [<!ENTITY ent "E1"><!ENTITY ent2 "E2">]>' % root)
+        out.append('<!DOCTYPE %s [<!ENTITY ent "E1"><!ENTITY ent2 "E2"><!NOTATION gif SYSTEM "gif">'
+                   '<!ENTITY pic SYSTEM "http://x/pic.gif" NDATA gif>]>' % root)
         flags.add("doctype")
     for t in top:
         walk(t)
@@ -440,7 +441,7 @@ def gen_sheet(r):
     """returns (class, stylesheet text, flags)"""
     enc = r.choice(["UTF-8", "UTF-8", "UTF-16", "ISO-8859-1", "US-ASCII", "UTF-8"])
     out = '<xsl:output method="xml" encoding="%s"/>' % enc
-    k = r.randrange(15)
+    k = r.randrange(16)
     flags = set()
     if k == 0:
         body = ('<xsl:template match="/"><out par="{$par}" num="{$num + 1}"><xsl:for-each select="//node()|//@*">'
@@ -525,6 +526,10 @@ def gen_sheet(r):
         body = ('<xsl:template match="/"><out><xsl:apply-templates select="//text()[string-length(.) &gt; 100]"/></out></xsl:template>'
                 '<xsl:template match="text()"><long l="{string-length(.)}" a="{substring(.,250,12)}" b="{substring(.,4090,12)}" c="{substring(.,8185,12)}"/></xsl:template>')
         cls = "longtext"
+    elif k == 15:
+        body = ('<xsl:template match="/"><out n="{count(/node())}" p="{count(/*/preceding::node())}" f="{name(/node()[1])}" l="{name(/node()[last()])}" '
+                'ps="{count(/*/preceding-sibling::node())}" u="{unparsed-entity-uri(\'pic\')}" v="{unparsed-entity-uri(\'ent\')}" all="{count(//node())}"/></xsl:template>')
+        cls = "doctype-probe"
     else:
         body = ('<xsl:template match="/"><out par="{$par}" n="{$num * 2}" t="{count(//node())}"><xsl:value-of select="concat($par, \'|\', string($num))"/></out></xsl:template>')
         cls = "params"
@@ -545,8 +550,11 @@ PI = '<?xml-stylesheet type="text/xsl" href="main.xsl"?>'
 KNOWN_REPLAYS = {
     "K05a": (NS_AXIS_SHEET, PI + '<a xmlns:p="u"><b xmlns="d"><c/></b></a>'),
     "K05b": (ATTR_ORDER_SHEET, PI + '<a z="1" b="2"/>'),
-    "K05c": (DOCTYPE_SHEET, '<!DOCTYPE a [<!ENTITY e "zz">]>' + PI + '<a><b/></a>'),
     "K05e": (TEXT_SHEET, PI + "<a>" + "a" * 511 + "\U0001F600b</a>"),
+}
+# repaired (fixes/C05): must agree in every form now
+FIXED_REPLAYS = {
+    "K05c": (DOCTYPE_SHEET, '<!DOCTYPE a [<!ENTITY e "zz">]>' + PI + '<a><b/></a>'),
     "K05d": (UENT_SHEET, '<!DOCTYPE a [<!NOTATION gif SYSTEM "gif"><!ENTITY pic SYSTEM "http://x/pic.gif" NDATA gif>]>' + PI + '<a/>'),
 }
 
@@ -636,7 +644,7 @@ def run(ctx):
         "Xerces-C delivers to SAX2 handlers / builds as DOM what the XML recommendation prescribes (the parser itself is not modelled); the event streams it really delivers are recorded and fed to the model on every run",
         "transcoders act block-wise (tc(a++b) = tc a ++ tc b): exact for the UTF-16 pass-through and for UTF-8/8-bit encoders as long as no surrogate pair is split over two flushes",
         "tree-building targets (Xerces DOM, Xalan source tree) are compared only when the byte result is one well-formed XML document (xml method); the C-API data buffer only for results without NUL bytes (it is NUL terminated)",
-        "Xerces-DOM-backed source forms are compared on documents in XPath-normal form (no CDATA section next to text, no entity reference nodes); the wrapped-DOM form is normalised by the driver; attribute order, namespace axis, DOCTYPE are the recorded finding classes K05a-K05d",
+        "Xerces-DOM-backed source forms are compared on documents in XPath-normal form (no CDATA section next to text, no entity reference nodes); the wrapped-DOM form is normalised by the driver; attribute order and namespace axis are the recorded finding classes K05a, K05b (K05c DOCTYPE node and K05d unparsed-entity-uri are repaired and generated again)",
         "file / stream / C API / command line plumbing is exercised by the differential run, not modelled in Coq",
     ]
     ok_lib, liblog = core.build_lib("plain")
@@ -832,8 +840,10 @@ def evaluate(ctx, r, impl, model, xalan, scale, state):
         if idx != list(range(2, 2 + len(idx))):
             orc.append(("index", "native indexes are not 2,3,4,... in document order: %s" % idx[:40], w_by_id[cid]))
         widx = [it[2] for it in wi]
-        if any(b <= a for a, b in zip(widx, widx[1:])) or (widx and widx[0] != 2):
-            orc.append(("index", "wrapper indexes do not increase in document order (element, attributes, children): %s" % widx[:60], w_by_id[cid]))
+        if any(b <= a for a, b in zip(widx, widx[1:])) or (widx and widx[0] < 2) or ("doctype" not in flags and widx != list(range(2, 2 + len(widx)))):
+            orc.append(("index", "wrapper indexes do not increase in document order (element, attributes, children; consecutive without a DOCTYPE): %s" % widx[:60], w_by_id[cid]))
+        if any(it[1] == "y" for it in wi):
+            orc.append(("wrap-vs-native", "the document type declaration is linked into the wrapper's child chain", w_by_id[cid]))
         # oracle 3: XPath-normal DOM: same nodes in the same order as the native tree
         if not (flags & {"cdata", "entref"}):
             if node_view(wi) != node_view(ni):
@@ -905,7 +915,9 @@ def evaluate(ctx, r, impl, model, xalan, scale, state):
     t_cases = []
     for key, (sh, src) in KNOWN_REPLAYS.items():
         t_cases.append({"id": "tk" + key, "sheet": sh, "src": src, "params": [], "flags": {"x"} if key != "K05e" else set(), "cls": "known:" + key,
-                        "srcflags": {"K05a": {"nsaxis"}, "K05b": {"attrorder"}, "K05c": {"doctype"}, "K05d": {"doctype", "uent"}, "K05e": {"textastral"}}[key], "seed": 1})
+                        "srcflags": {"K05a": {"nsaxis"}, "K05b": {"attrorder"}, "K05e": {"textastral"}}[key], "seed": 1})
+    for key, (sh, src) in FIXED_REPLAYS.items():
+        t_cases.append({"id": "tf" + key, "sheet": sh, "src": src, "params": [], "flags": {"x"}, "cls": "fixed:" + key, "srcflags": {"doctype"}, "seed": 1})
     for i in range(nT):
         cls, sh, flags = gen_sheet(r)
         srcflags = set()
@@ -924,7 +936,7 @@ def evaluate(ctx, r, impl, model, xalan, scale, state):
         if astral_text and any(ord(ch) > 0xFFFF for ch in str(top)):
             srcflags.add("textastral")
         variants = r.random() < 0.45
-        doctype = r.random() < 0.08
+        doctype = r.random() < 0.25 or cls == "doctype-probe"
         src = serialise(r, top, variants=variants, doctype=doctype, flags=srcflags)
         params = []
         if r.random() < 0.5:
@@ -984,7 +996,7 @@ def evaluate(ctx, r, impl, model, xalan, scale, state):
             state.setdefault("forms_compared", 0)
             state["forms_compared"] += ncmp
             # the command-line program
-            if xalan and (c["id"].startswith("tk") or r.random() < (0.25 if scale == 1 else 0.1)):
+            if xalan and (c["id"].startswith("tk") or c["id"].startswith("tf") or r.random() < (0.25 if scale == 1 else 0.1)):
                 for variant in (0, 1, 2):
                     st, data = run_cli(xalan, core.lib_dir("plain"), workdir, c["sheet"], c["src"], c["params"], variant)
                     state["forms_compared"] += 1
@@ -1007,10 +1019,6 @@ def evaluate(ctx, r, impl, model, xalan, scale, state):
                     continue
                 if srcform in RAW_DOM_FORMS and "cdata" in sf:
                     state["info"]["cdata-in-unnormalised-dom"] = state["info"].get("cdata-in-unnormalised-dom", 0) + 1
-                    continue
-                if srcform in DOM_FORMS and "doctype" in sf:
-                    key = "K05d" if "uent" in sf else "K05c"
-                    state["known_hits"][key] = state["known_hits"].get(key, 0) + 1
                     continue
                 if srcform in DOM_FORMS and "nsaxis" in sf:
                     state["known_hits"]["K05a"] = state["known_hits"].get("K05a", 0) + 1
